@@ -31,6 +31,7 @@ Definition E_TRAILING := 10.  (* "trailing garbage after existing certificate" *
 Definition E_TOOBIG := 11.    (* "PE file is too big" *)
 Definition E_BADTABLE := 12.  (* "invalid certificate table" *)
 Definition E_LFANEW := 14.    (* "unsupported PE file: NT headers overlap the DOS header" *)
+Definition E_OPTSHORT := 15.  (* "PE optional header is too short" (relic commit 53d79ae; a slice panic before it) *)
 Definition E_PATCH := 100.    (* binpatch refused (cannot happen on patches built by make_patch; kept for totality) *)
 Definition P_SLICE := 1.      (* Go panic: slice bounds out of range (buf[:2] on a shorter optional header) *)
 Definition P_DIV0 := 2.       (* Go panic: integer divide by zero (align32 with FileAlignment = 0) *)
@@ -96,7 +97,8 @@ Definition read_nt (f : bytes) : result hvals :=
   let optsize := u16 f (coff + coff_off_optsize) in
   let opt := coff + pe_coff_len in
   if zlen f <? opt + optsize then Err E_EOF else
-  if optsize <? pe_optmagic_len then Panic P_SLICE else
+  if pe_opt_short optsize then Err E_OPTSHORT else
+  if optsize <? pe_optmagic_len then Panic P_SLICE else   (* buf[:2]: excluded by the guard above *)
   let magic := u16 f opt in
   let page := if existsb (Z.eqb machine) pe_page_machines then pe_page_size_listed else pe_page_size_default in
   let finish (dd4 : Z) :=
@@ -137,7 +139,6 @@ Fixpoint adjust_secs (secs : list (Z * Z)) (i nsec tblend falign soh : Z) : resu
       else
         let soh' := if pe_sec_before_hdr_end ptr soh && pe_hdr_shrinks_to_section then ptr else soh in
         if pe_sec_not_last i nsec && pe_aligns_mid_sections then
-          if falign =? 0 then Panic P_DIV0 else
           x <- adjust_secs r (i + 1) nsec tblend falign soh' ;; Ok ((ptr, align32 size falign) :: fst x, snd x)
         else
           x <- adjust_secs r (i + 1) nsec tblend falign soh' ;; Ok ((ptr, size) :: fst x, snd x)
